@@ -6,6 +6,7 @@ import (
 	"go/types"
 
 	"cachelint/internal/core"
+	"cachelint/internal/sym"
 
 	"golang.org/x/tools/go/ssa"
 )
@@ -347,196 +348,56 @@ func c07Q2(r *Run, rep *core.Report, mm *core.MapModel, f *ssa.Function, app ssa
 	rep.Check(same, "C07.Q2", fn(f)+" key/value pair from one slot", r.P.InstrPos(app), "the collected key and value pointers come from the same slot of the same bucket", "a collected entry pairs a key pointer and a value pointer from different slots or buckets: the visitor would see a key with another key's value")
 }
 
-// ---- Q3: cache-level Range / Items ----
+// ---- Q3: cache-level Range / Items (role evaluation) ----
 
 func c07Q3(r *Run, rep *core.Report) {
-	for i := 0; i < 2; i++ {
-		f := r.M.CacheM[i]["Range"]
-		if f == nil {
-			continue
-		}
-		rep.Fn(fn(f))
-		var visitor *ssa.Parameter
-		for _, p := range f.Params {
-			if isFuncTyped(p.Type()) {
-				visitor = p
-			}
-		}
-		// nil visitor: every map operation is on the non-nil side of a nil test of the visitor
-		var rangeCall ssa.CallInstruction
-		core.Instrs(f, func(in ssa.Instruction) {
-			if c, ok := in.(ssa.CallInstruction); ok {
-				if m, _, ok := r.M.ItemsInvoke(c); ok && m == "Range" {
-					rangeCall = c
-				}
-			}
-		})
-		if rangeCall == nil || visitor == nil {
-			rep.Fail("C07.Q3", fn(f)+" traverses the map", r.P.Pos(f.Pos()), "cache Range does not call the underlying map's Range with a visitor")
-			continue
-		}
-		nilGuard := false
-		for _, b := range f.Blocks {
-			iff, ok := b.Instrs[len(b.Instrs)-1].(*ssa.If)
-			if !ok {
+	n := 0
+	for twin := 0; twin < 2; twin++ {
+		for _, name := range []string{"Range", "Items"} {
+			mp := methodPaths(r, twin, name)
+			if undecidedPaths(r, rep, "C07.Q0", mp) {
 				continue
 			}
-			cmp, ok := iff.Cond.(*ssa.BinOp)
-			if !ok || (cmp.Op != token.EQL && cmp.Op != token.NEQ) {
-				continue
-			}
-			isV := func(v ssa.Value) bool {
-				if v == ssa.Value(visitor) {
-					return true
-				}
-				if ld, ok := v.(*ssa.UnOp); ok {
-					if al, ok := ld.X.(*ssa.Alloc); ok {
-						for _, ref := range *al.Referrers() {
-							if st, ok := ref.(*ssa.Store); ok && st.Val == ssa.Value(visitor) {
-								return true
-							}
-						}
-					}
-				}
-				return false
-			}
-			if !((isV(cmp.X) && core.IsNilConst(cmp.Y)) || (isV(cmp.Y) && core.IsNilConst(cmp.X))) {
-				continue
-			}
-			nonNil := b.Succs[1]
-			if cmp.Op == token.NEQ {
-				nonNil = b.Succs[0]
-			}
-			if nonNil.Dominates(rangeCall.Block()) {
-				nilGuard = true
-			}
-		}
-		rep.Check(nilGuard, "C07.Q3", fn(f)+" ignores a nil visitor", r.P.InstrPos(rangeCall), "the map is traversed only when the visitor is non-nil", "a nil visitor is not filtered out before the traversal (it would be called and panic)")
-		// the closure
-		var cl *ssa.Function
-		var mc *ssa.MakeClosure
-		for _, a := range rangeCall.Common().Args {
-			if x, ok := a.(*ssa.MakeClosure); ok {
-				mc = x
-				cl = x.Fn.(*ssa.Function)
-			}
-		}
-		if cl == nil {
-			rep.Undecided("C07.Q3", fn(f)+" visitor adapter", r.P.InstrPos(rangeCall), "the map visitor is not a function literal")
-			continue
-		}
-		rep.Fn(fn(cl))
-		nCalls := 0
-		core.Instrs(cl, func(in ssa.Instruction) {
-			c, ok := in.(ssa.CallInstruction)
-			if !ok || core.Callee(c) != nil || c.Common().IsInvoke() || core.IsBuiltinCall(c) != "" {
-				return
-			}
-			if !userFnCapture(cl, c.Common().Value) {
-				return
-			}
-			nCalls++
-			// on the not-expired side of an expiry test of the closure's own entry parameter
-			guarded, clockOK := false, false
-			why := "no expiry test of the visited entry dominates the call"
-			for _, b := range cl.Blocks {
-				iff, ok := b.Instrs[len(b.Instrs)-1].(*ssa.If)
-				if !ok {
-					continue
-				}
-				call, neg, isT := expiryTest(r, iff.Cond)
-				if !isT {
-					continue
-				}
-				exp, live := b.Succs[0], b.Succs[1]
-				if neg {
-					exp, live = live, exp
-				}
-				if !(live.Dominates(in.Block()) && !blockReach(exp)[in.Block()]) {
-					continue
-				}
-				// receiver is the closure's own entry parameter (or a copy of it)
-				if !fromParam(cl, call.Call.Args[0]) {
-					why = "the expiry test is not on the entry handed to this visitor call"
-					continue
-				}
-				guarded = true
-				// clock: no argument (reads the clock itself) or an argument derived from time.Now() inside this Range call
-				if len(call.Call.Args) == 1 {
-					clockOK = true
-				} else {
-					clockOK = clockFromCall(f, cl, mc, call.Call.Args[1])
-					if !clockOK {
-						why = "the timestamp compared against is not a clock reading made inside this Range call (cached or caller-supplied)"
-					}
-				}
-			}
-			rep.Check(guarded && clockOK, "C07.Q3", fn(cl)+" visits only unexpired entries", r.P.InstrPos(in), "the visitor is called only for an entry that tested unexpired against a clock read in this call",
-				"the user's visitor can be called for an expired entry: "+why)
-			// args: key parameter and a field of the entry parameter
-			okArgs := len(c.Common().Args) == 2 && fromParam(cl, c.Common().Args[0]) && fromParam(cl, c.Common().Args[1])
-			rep.Check(okArgs, "C07.Q3", fn(cl)+" passes the visited pair", r.P.InstrPos(in), "visitor receives the key and the value of the entry being visited", "the visitor does not receive the key and value of the entry being visited")
-			// the verdict is returned
-			ret := false
-			if v, ok := in.(ssa.Value); ok {
-				for _, ref := range *v.Referrers() {
-					if _, isR := ref.(*ssa.Return); isR {
-						ret = true
-					}
-				}
-			}
-			rep.Check(ret, "C07.Q3", fn(cl)+" returns the verdict", r.P.InstrPos(in), "the visitor's verdict decides whether the traversal continues", "the visitor's false verdict is not propagated: the traversal does not stop immediately")
-		})
-		rep.Check(nCalls >= 1, "C07.Q3", fn(cl)+" calls the visitor", r.P.Pos(cl.Pos()), "adapter calls the user's visitor", "the map visitor never calls the user's visitor")
-		// skipped entries continue the traversal
-		core.Instrs(cl, func(in ssa.Instruction) {
-			if ret, ok := in.(*ssa.Return); ok && len(ret.Results) == 1 {
-				if b, isC := core.ConstBool(ret.Results[0]); isC && !b {
-					rep.Fail("C07.Q3", fn(cl)+" stops on a skipped entry", r.P.InstrPos(in), "the adapter returns false without a verdict of the user's visitor: the traversal ends early and live entries are not visited")
-				}
-			}
-		})
-		// Items
-		it := r.M.CacheM[i]["Items"]
-		if it != nil {
-			rep.Fn(fn(it))
-			usesRange := false
-			core.Instrs(it, func(in ssa.Instruction) {
-				c, ok := in.(ssa.CallInstruction)
-				if !ok || core.Callee(c) != f {
-					return
-				}
-				usesRange = true
-				for _, a := range c.Common().Args {
-					var icl *ssa.Function
-					switch x := a.(type) {
-					case *ssa.MakeClosure:
-						icl = x.Fn.(*ssa.Function)
-					case *ssa.Function:
-						icl = x
-					}
-					if icl == nil {
+			rep.Fn(fn(mp.Fn))
+			pos := r.P.Pos(mp.Fn.Pos())
+			// reference rows: nil visitor ignored before any map operation; visitor / Items store only for an entry
+			// that tested unexpired, with that entry's key and value; verdict propagated; skipped entries continue
+			tableCheck(r, rep, "C07.Q3", mp)
+			var bad []string
+			for i := range mp.Paths {
+				p := &mp.Paths[i]
+				n++
+				for _, ev := range p.Events {
+					if ev.Kind != "usercall" && ev.Kind != "itemsstore" {
 						continue
 					}
-					stores, early := 0, false
-					core.Instrs(icl, func(in2 ssa.Instruction) {
-						if mu, ok := in2.(*ssa.MapUpdate); ok {
-							if fromParam(icl, mu.Key) && fromParam(icl, mu.Value) {
-								stores++
+					terms := append([]*sym.Term{}, ev.Args...)
+					if ev.Key != nil {
+						terms = append(terms, ev.Key)
+					}
+					for _, t := range terms {
+						for _, x := range mapolds(t) {
+							st := itemStatus(p.PC, x)
+							switch {
+							case st.Status != "live":
+								bad = append(bad, fmt.Sprintf("the visitor / Items map receives an entry whose expiry status on the path is '%s' (%s)", st.Status, sym.DescribePC(p.PC)))
+							case st.Clock != nil && !clockInCall(st.Clock):
+								bad = append(bad, "the expiry filter compares against "+st.Clock.String()+", which is not a clock reading made inside this call (cached, defaulted or caller-supplied timestamp)")
+							case st.Shape != "":
+								bad = append(bad, st.Shape)
 							}
 						}
-						if ret, ok := in2.(*ssa.Return); ok && len(ret.Results) == 1 {
-							if b, isC := core.ConstBool(ret.Results[0]); !isC || !b {
-								early = true
-							}
-						}
-					})
-					rep.Check(stores == 1 && !early, "C07.Q3", fn(icl)+" records every visited pair", r.P.Pos(icl.Pos()), "stores the visited key/value and always continues", "Items does not record exactly the visited pairs or stops early")
+					}
 				}
-			})
-			rep.Check(usesRange, "C07.Q3", fn(it)+" is built on Range", r.P.Pos(it.Pos()), "Items traverses through the cache's Range (same expiry filter)", "Items does not traverse through the cache's Range: its expiry filter is bypassed")
+			}
+			msg := ""
+			if len(bad) > 0 {
+				msg = bad[0]
+			}
+			rep.Check(len(bad) == 0, "C07.Q3", fn(mp.Fn)+" visits only unexpired entries", pos, "every visited / recorded entry tested unexpired against a clock read in this call", msg)
 		}
 	}
+	rep.MinCount("C07.Q3", "abstract paths of Range / Items", n, 10)
 }
 
 // fromParam: the value is a parameter of cl, a field of one, or a load of a local copy of one.
